@@ -6,9 +6,15 @@
   spelling of the same value.  The wrapped-plain-visitor case is the definition of the
   adapters (`XEv.expand` mirrors array.go / map.go / string.go).  UBJSON / JSON / unfolder:
   mirror + correspondence + oracle.
+
+  UBJSON ENCODER (namespace `SF.PropsUbj.C10`): every extended value event and its expansion
+  into basic events are both accepted by the reference decoder with the SAME value (exactly the
+  value of the expansion when no number exceeds MaxInt64); by-reference strings / keys issue
+  the very same writes as their by-value events.
 -/
 import SF.Proofs.CborEnc
 import SF.Proofs.CborDecode
+import SF.Proofs.UbjEncTop
 namespace SF.Props.C10
 open SF SF.Cbor SF.Cbor.Cst SF.Cbor.Enc
 
@@ -137,3 +143,26 @@ theorem cbor_bytes_same_value (s : Enc) (hf : s.w.failFrom = none) (bs : Bytes)
 example : step {} (.numArr .i16 [-200, 5]) = execEvs {} (XEv.expand (.numArr .i16 [-200, 5])) := by decide +kernel
 
 end SF.Props.C10
+
+/-! ## UBJSON encoder (SF/Ubjson/Enc.lean; proofs SF/Proofs/Ubj*.lean) -/
+
+namespace SF.PropsUbj.C10
+open SF SF.Ubjson SF.Ubjson.Enc SF.Ubjson.Wire
+open SF.Cbor.Enc (small)
+open SF.Props.UbjEnc
+
+/-- C10 for UBJSON: an extended value event (typed array / typed map / bytes / by-reference
+string) and its expansion into basic events are written as DIFFERENT bytes (optimized container
+vs plain) that the reference decoder reads as the SAME value -/
+theorem ubj_ext_same_value (x : XEv) (hx : isExtValue x = true) (hs : small (xTree x) = true) :
+    ∃ v1 v2 : Val, Cst.decodeStream (encAll [x]) = .ok [v1] ∧
+      Cst.decodeStream (encAll (x.expand.map XEv.ev)) = .ok [v2] ∧
+      build x.expand = some (xTree x).value ∧
+      approx (xTree x).value v1 = true ∧ approx (xTree x).value v2 = true ∧
+      (noBig (xTree x) = true → v1 = (xTree x).value ∧ v2 = (xTree x).value) :=
+  SF.Props.UbjEnc.ubj_ext_same_value x hx hs
+
+theorem ubj_keyRef_same (s : Enc) (k : Bytes) : step s (.keyRef k) = step s (.ev (.key k)) := rfl
+theorem ubj_strRef_same (s : Enc) (b : Bytes) : step s (.strRef b) = step s (.ev (.str b)) := rfl
+
+end SF.PropsUbj.C10
